@@ -14,7 +14,10 @@ on a history: it is evaluated on every graph event *at the moment the scheduler 
 * E4  nested work refers only to groups it introduces or to groups of the producing task
       (work of stream items / the initial work: only to groups it introduces);
 * E5  every group, task and stream object is introduced by exactly one `Work`, once
-      (objects are fresh), and a task belongs to at least one group, without repetition.
+      (objects are fresh), and a task belongs to at least one group, without repetition;
+* E6  groups are numbered by allocation serial: a group's parent object exists before the
+      group does (`DeliveryGroup(path, label, parent)` takes the parent object), so
+      `parent g < g`.  This is what makes "ancestor" a well-founded notion.
 -/
 namespace Gql.Async
 
@@ -42,7 +45,7 @@ def workOk (σ : Static) (e : EnvSt) (q : WQ) (producer : Option Nat) (w : Work)
   && w.groups.all (fun g =>
       match σ.parent g with
       | none => true
-      | some p => p != g && (w.groups.contains p || (alookup q.groupNodes p).isSome))
+      | some p => decide (p < g) && (w.groups.contains p || (alookup q.groupNodes p).isSome))
   && w.tasks.all (fun t =>
       !(σ.tgroups t).isEmpty && nodupB (σ.tgroups t)
       && (σ.tgroups t).all (fun g =>
